@@ -277,7 +277,9 @@ def c03_mixed(tag: int, iv: int, bv: bool, sv: str) -> bool:
         sv = "not-a-number"           # float(<symbolic str>) realises: one representative
     if tag == 2 and not numeric:
         iv = 7 if iv > 0 else -2 ** 40
-    value = None if tag == 0 else (bv if tag == 1 else (iv if tag == 2 else (sv if tag == 3 else {"x": 1})))
+    # (an unhashable object at an enum position makes the engine's error message quote CPython's "unhashable type: 'dict'", which CrossHair's dict model words
+    #  differently: message wording is not the subject here, a hashable non-member object is used at enum positions)
+    value = None if tag == 0 else (bv if tag == 1 else (iv if tag == 2 else (sv if tag == 3 else ({"x": 1} if leafname != "color" else ("x", 1)))))
     data = _put(DATA, p, value)
     world.reset()
     ok, resp = safe(lambda: env.run(eng.execute(DOC_M, initial_value=data)))
